@@ -40,6 +40,9 @@ type Run struct {
 func (f *Run) Call(s *slip.Scope, args slip.List, depth int) (result slip.Object) {
 	slip.CheckArgCount(s, depth, f, args, 1, 1)
 	if args[0] != nil {
+		// The scope and its ancestors are visible to both threads from here
+		// on so variable access must be protected.
+		s.Share()
 		go func() { _ = args[0].Eval(s, depth) }()
 	}
 	return slip.Novalue
